@@ -383,7 +383,8 @@ def _time_cases(rets, fi, t_end_text):
     for state, val in rets:
         if state.entails_cmp(T, '<=', E):
             then.append(val)
-        elif state.entails_cmp(E, '<', T):
+        elif state.entails_cmp(E, '<=', T):
+            # strictness of t > t_end is R-posdiff's business
             els.append(val)
         else:
             raise AnalysisError(
@@ -778,7 +779,8 @@ def cert_K5(repo, tier='quick'):
             continue
         n_nz += 1
         E = Lifter(fi.module, {'t': t, 'a': a, 'b': b, 'h': h}).lift(val)
-        if state.entails_cmp(B, '<', T):
+        if state.entails_cmp(B, '<=', T) and not state.entails_cmp(
+                T, '<=', B):
             sub = {b: a + d1, t: a + d1 + d2}
             ref = gk(t - b, h) - gk(t - a, h)
             tag = 't > b'
@@ -854,7 +856,8 @@ def cert_K5(repo, tier='quick'):
         ta, tb = sp.symbols('t_a t_b', real=True)
         L = Lifter(fi.module, {'t': t, TA: ta, TB: tb}, call_hook=hook)
         E = L.lift(val)
-        if state.entails_cmp(TBn, '<', Tn):
+        if state.entails_cmp(TBn, '<=', Tn) and not state.entails_cmp(
+                Tn, '<=', TBn):
             sub = {tb: ta + d1, t: ta + d1 + d2}
             integrand = lambda u: gk(t - tb, u) - gk(t - ta, u)
             tag = 't > t_b'
